@@ -115,6 +115,62 @@ func runC09(rc *RunCtx) {
 	}
 	rc.Phase = "probe"
 	checkRelation(rc, ms, cfg, U, "", "after initial load", 1)
+	// Sibling listeners of one service are served by one handler: datagrams that
+	// arrive on two of them at the same time must each be judged by their own
+	// content (a key of the service authenticates, a key of no service does not).
+	rc.Phase = "siblings"
+	for si, sv := range cfg.Services {
+		var udp []mLn
+		for _, l := range sv.Listeners {
+			if l.Type == "udp" {
+				udp = append(udp, l)
+			}
+		}
+		if len(udp) < 2 || len(sv.Keys) == 0 {
+			continue
+		}
+		owner := mOwner{ln: udp[0], keys: sv.Keys}
+		var foreign []*Key
+		for _, k := range U {
+			if owner.expect(k) == "" {
+				foreign = append(foreign, k)
+			}
+		}
+		for round := 0; round < 3; round++ {
+			a, b := udp[G.Draw(len(udp))], udp[G.Draw(len(udp))]
+			if a == b {
+				continue
+			}
+			ka := sv.Keys[G.Draw(len(sv.Keys))]
+			kb := sv.Keys[G.Draw(len(sv.Keys))]
+			if len(foreign) > 0 && G.Draw(3) != 0 {
+				kb = foreign[G.Draw(len(foreign))]
+			}
+			var da, db flag
+			var ida, idb string
+			ja, jb := jitter(G), jitter(G)
+			simrt.GoNamed("c09-sibling-a", func() { ja(); ida, _ = ms.probeUDP(a.Addr, ka); da.Set() })
+			simrt.GoNamed("c09-sibling-b", func() { jb(); idb, _ = ms.probeUDP(b.Addr, kb); db.Set() })
+			da.Wait()
+			db.Wait()
+			rc.Probe("concurrent_datagrams_on_sibling_listeners")
+			for _, x := range []struct {
+				ln  mLn
+				k   *Key
+				got string
+			}{{a, ka, ida}, {b, kb, idb}} {
+				want := owner.expect(x.k)
+				switch {
+				case want == "" && x.got != "":
+					rc.Failf("foreign-key-authenticated:udp", "service %d: a datagram under key %s, which the service does not have, sent to %s while a sibling listener received another one, created an association as %q", si, x.k, x.ln.Addr, x.got)
+				case want != "" && x.got == "":
+					rc.Failf("configured-key-rejected:udp", "service %d: a datagram under key %s sent to %s while a sibling listener received another one did not authenticate", si, x.k, x.ln.Addr)
+				case want != x.got:
+					rc.Failf("wrong-id:udp", "service %d: a datagram under key %s sent to %s while a sibling listener received another one was attributed to %q (first configured id: %q)", si, x.k, x.ln.Addr, x.got, want)
+				}
+			}
+		}
+	}
 	rc.Nontrivial = len(cfg.owners()) > 0
 	rc.State(fmt.Sprintf("listeners=%d", len(cfg.owners())))
 	rc.Phase = "stop"
